@@ -14,6 +14,9 @@ pub fn check(t: &Trace<'_>, out: &mut CaseOut) -> bool {
     let w = t.w;
     let Some((ci, cop)) = t.log.ops.iter().enumerate().find(|(_, o)| o.step >= from && o.kind == "connect") else { return false };
     let Some(conn) = cop.conn else { return false };
+    if t.conns[conn].mps.is_some() {
+        out.count("continuations_with_tight_packet_size_limit", 1);
+    }
     // spinning anywhere in the history is a violation of "no operation loops without bound"
     for (ev, e) in w.events.iter().enumerate() {
         if matches!(e, Ev::ClockSpin) {
